@@ -43,7 +43,7 @@ let hex_of_name (x : name) : string = hex_of_bytes (encode_utf8 (List.map int_of
 
 (* ---- printing ---- *)
 let bits l = if l = [] then "-" else String.concat "" (List.map (fun b -> if b then "1" else "0") l)
-let names l = if l = [] then "-" else String.concat "," (List.map hex_of_name l)
+let names l = if l = [] then "-" else String.concat "," (List.map (fun x -> if x = [] then "~" else hex_of_name x) l)
 let pt p = if p = [] then "." else bits p
 let pts l = if l = [] then "-" else String.concat "," (List.map pt l)
 let sorted_pts l = pts (List.sort compare l)
@@ -81,6 +81,20 @@ let show_tok_err = function
 let show_perr = function
   | EmptySideOfOperator -> "err:EmptySideOfOperator"
   | UnexpectedLiteralsGroup -> "err:UnexpectedLiteralsGroup"
+
+let csv_err_name = function
+  | 1 -> "DuplicateVariableName" | 2 -> "UnexpectedEof" | 3 -> "RecordDifferentSizeThanHeader"
+  | 4 -> "NonBooleanCellValue" | 5 -> "NoOutputColumn" | 6 -> "MismatchedRecordCountAndVariableCount"
+  | 7 -> "NoDelimiterFound" | 8 -> "ParsingError" | 9 -> "IOError" | k -> "E" ^ string_of_int k
+let show_table t = names t.t_inputs ^ ":" ^ bits t.t_outputs
+let show_csv_res = function
+  | Ok t -> "ok:" ^ show_table t
+  | Err c -> "err:" ^ csv_err_name (int_of_nat c)
+  | Panic _ -> "panic"
+let fmt_of = function "N" -> FNumber | "C" -> FCharacter | "W" -> FWord | "K" -> FCapitalizedWord | s -> failwith s
+let sty_of = function "A" -> SAscii | "M" -> SModern | "D" -> SMarkdown | "E" -> SEmpty | s -> failwith s
+let show_rows rows =
+  if rows = [] then "-" else String.concat ";" (List.map (fun r -> String.concat "," (List.map hex_of_name r)) rows)
 
 let tv_limit = 12
 (* semantic digest of an expression: inputs and truth vector (skipped above tv_limit inputs) *)
@@ -149,6 +163,7 @@ let parse_instr toks : instr =
   | ["binary"; o; i; j] -> IBinary (o = "and", reg_of i, reg_of j)
   | ["negate"; i] -> INegate (reg_of i)
   | ["parse"; h] -> IParse (name_of_hex h)
+  | ["csvin"; w; h] -> ICsvIn (w = "file", name_of_hex h)
   | t :: _ -> raise (Bad ("instr " ^ t))
   | [] -> raise (Bad "empty instr")
 
@@ -176,9 +191,9 @@ let query (p : pool) toks : string =
            let o = e.e_obj in
            Printf.sprintf "kind=%s struct=%s inputs=%s tv=%s s.rel=%s s.inputs=%s s.tv=%s"
              (kind_char o) (if e.e_opaque then "*" else show_struct o)
-             (names (obj_inputs o)) (bits (obj_tv o))
+             (names (obj_inputs o)) (match o with OT { t_outputs = []; _ } -> "-" | _ -> bits (obj_tv o))
              (match o with OE _ -> "sub" | _ -> "eq")
-             (names e.e_spec.ins) (bits (bf_tv e.e_spec)))
+             (names e.e_spec.ins) (match o with OT { t_outputs = []; _ } -> "-" | _ -> bits (bf_tv e.e_spec)))
   | ["enum"; i] ->
       (match get i with
        | None -> "skip"
@@ -228,6 +243,36 @@ let query (p : pool) toks : string =
        | Some e -> let (i, tv) = digest e in
                    Printf.sprintf "%s acc=1 inputs=%s tv=%s s.acc=1 s.rel=eq s.inputs=%s s.tv=%s" f i tv i tv
        | None -> Printf.sprintf "%s acc=0 s.acc=0" f)
+  | ["csvout"; i; fi; fo] ->
+      (match get i with
+       | Some { e_obj = OT t; _ } ->
+           let text = to_csv_formatted (n_of_int 44) (fmt_of fi) (fmt_of fo) t in
+           let back = from_csv_string text in
+           (* C17: a well-formed table with csv-safe names comes back equal *)
+           let wf = (List.length t.t_outputs = 1 lsl (List.length t.t_inputs)) && List.length t.t_inputs < 62 in
+           Printf.sprintf "text=%s round=%s%s" (hex_of_name text) (show_csv_res back)
+             (if wf && csv_safe t then " s.round=ok:" ^ show_table t else "")
+       | _ -> "skip")
+  | ["csvdef"; i] ->
+      (match get i with
+       | Some { e_obj = OT t; _ } ->
+           Printf.sprintf "text=%s s.text=%s" (hex_of_name (to_csv t))
+             (hex_of_name (to_csv_formatted (n_of_int 44) FNumber FNumber t))
+       | _ -> "skip")
+  | ["render"; i; st; fi; fo] ->
+      (match get i with
+       | Some { e_obj = OT t; _ } ->
+           let rows = table_rows (fmt_of fi) (fmt_of fo) t in
+           Printf.sprintf "text=%s%s" (hex_of_name (to_string_formatted uwidth (sty_of st) (fmt_of fi) (fmt_of fo) t))
+             (if clean_rowsb (sty_of st) rows then " s.style=" ^ st ^ " s.rows=" ^ show_rows rows else "")
+       | _ -> "skip")
+  | ["display"; i] ->
+      (match get i with
+       | Some { e_obj = OT t; _ } ->
+           Printf.sprintf "text=%s s.text=%s" (hex_of_name (display_table uwidth t))
+             (hex_of_name (to_string_formatted uwidth SEmpty FWord FWord t))
+       | Some { e_obj = OE x; _ } -> Printf.sprintf "text=%s" (hex_of_name (display x))
+       | _ -> "skip")
   | ["show"; i] ->
       (match get i with
        | Some { e_obj = OE x; _ } -> Printf.sprintf "show=%s" (hex_of_name (display x))
@@ -277,7 +322,9 @@ let () =
                  let i = parse_instr rest in
                  let res = exec !pool i in
                  pool := !pool @ [ (match res with Ok e -> Some e | _ -> None) ];
-                 status_of res
+                 (match i, res with
+                  | ICsvIn _, Err c -> "err variant=" ^ csv_err_name (int_of_nat c)
+                  | _ -> status_of res)
                with Bad m -> pool := !pool @ [None]; "bad:" ^ m) in
             Printf.printf "%s %d %s\n" !case !lineno out
         | "q" :: rest ->
